@@ -59,7 +59,7 @@ func runC05(w *World, r *Report, tier string) {
 		if ok {
 			r.add("WRAPPER", "detector.CheckSpatialIdsOverlap", w.Pos(f.Pos()), Discharged, "returns CheckSpatialIdsArrayOverlap({id1}, {id2})")
 		} else {
-			r.add("WRAPPER", "detector.CheckSpatialIdsOverlap", w.Pos(f.Pos()), Violated, "does not return CheckSpatialIdsArrayOverlap({id1}, {id2}) unchanged")
+			r.add("WRAPPER", "detector.CheckSpatialIdsOverlap", w.Pos(f.Pos()), Undecided, "was not recognised to return CheckSpatialIdsArrayOverlap({id1}, {id2}) unchanged")
 		}
 	}
 	for _, n := range []string{"detector.CheckSpatialIdsArrayOverlap", "detector.CheckExtendedSpatialIdsOverlap", "detector.CheckExtendedSpatialIdsArrayOverlap"} {
